@@ -253,15 +253,35 @@ func (t *Tables) eval(pk *packages.Package, e ast.Expr) *TableVal {
 			if b, ok := elem.Underlying().(*types.Basic); ok && b.Info()&types.IsString != 0 {
 				var out []string
 				okAll := true
+				idx := int64(0)
 				for _, el := range x.Elts {
-					c, ok := pk.TypesInfo.Types[el]
-					if !ok || c.Value == nil {
+					ve := el
+					if kv, ok := el.(*ast.KeyValueExpr); ok {
+						kc, ok := pk.TypesInfo.Types[kv.Key]
+						if !ok || kc.Value == nil {
+							okAll = false
+							break
+						}
+						idx, _ = constant.Int64Val(constant.ToInt(kc.Value))
+						ve = kv.Value
+					}
+					c, ok := pk.TypesInfo.Types[ve]
+					if !ok || c.Value == nil || idx < 0 || idx > 1<<20 {
 						okAll = false
 						break
 					}
-					out = append(out, constant.StringVal(c.Value))
+					for int64(len(out)) <= idx {
+						out = append(out, "")
+					}
+					out[idx] = constant.StringVal(c.Value)
+					idx++
 				}
 				if okAll {
+					if a, ok := u.(*types.Array); ok {
+						for int64(len(out)) < a.Len() {
+							out = append(out, "")
+						}
+					}
 					return &TableVal{Kind: "strings", Strs: out}
 				}
 			}
@@ -466,6 +486,12 @@ func (t *Tables) readOnlyUses(v ssa.Value, depth int) bool {
 		}
 	}
 	return true
+}
+
+// Immutable: the global and its elements are written only by the package initialiser.
+func (t *Tables) Immutable(g *ssa.Global) bool {
+	t.scan()
+	return !t.storeOutsideInit[g] && !t.elemMut[g]
 }
 
 // Len: literal length of an immutable package-level string/slice.
